@@ -3,4 +3,4 @@ From Coq Require Import List String.
 Import ListNotations.
 Local Open Scope string_scope.
 
-Definition env_guard_sites : list string := ["interpreter/bytecode_vm.rs::handle_error_with_trampoline_unwind push=0 pop=1"; "interpreter/bytecode_vm.rs::push_trampoline_frame_and_call_bytecode push=1 pop=0"; "interpreter/bytecode_vm.rs::push_trampoline_frame_and_call_bytecode_construct push=1 pop=0"; "interpreter/bytecode_vm.rs::restore_from_trampoline_frame push=0 pop=1"; "interpreter/mod.rs::call_bytecode_function_with_new_target push=1 pop=1"; "interpreter/mod.rs::resume_bytecode_generator push=1 pop=0"].
+Definition env_guard_sites : list string := ["interpreter/bytecode_vm.rs::handle_error_with_trampoline_unwind push=0 pop=1"; "interpreter/bytecode_vm.rs::push_trampoline_frame_and_call_bytecode push=1 pop=0"; "interpreter/bytecode_vm.rs::push_trampoline_frame_and_call_bytecode_construct push=1 pop=0"; "interpreter/bytecode_vm.rs::restore_from_trampoline_frame push=0 pop=1"; "interpreter/mod.rs::call_bytecode_function_with_new_target push=1 pop=0"; "interpreter/mod.rs::resume_bytecode_generator_body push=1 pop=0"].
